@@ -187,6 +187,10 @@ def judge(ctx, text, charset, case, sigs):
         if not any(m in t for t in near):
             anywhere = any(m in nb(t) for (k, t) in p.items if k == 'error')
             where = cursor_state(res.shape, er, line, [x[0] for x in src])
+            if reader_level and where == 'cursor-can-reach' and any(src[q - 1][0] in ('ST', 'SE', 'GE', 'IEA', 'GS', 'ISA') for q in (line, line + 1) if 1 <= q <= nlines):
+                # the reader's finding about an envelope segment hangs on the error node of the body segment before it (C05 finding);
+                # if that node was already rendered, the message never shows
+                where = 'reader-finding-about-envelope-segment'
             key = 'html:message-not-next-to-segment:%s' % where
             if where == 'cursor-can-reach':
                 key += ':%s:%s' % ('misplaced' if anywhere else 'missing', er[0])
@@ -313,7 +317,7 @@ def run(ctx):
             kinds += names
             if any(x.startswith('truncate') for x in names):
                 continue
-        case = {'map': e['file'], 'family': kinds, 'terms': list(terms), 'k': ['c19', ctx.shard, k], 'text': text if len(text) < 8000 else None}
+        case = {'map': e['file'], 'family': kinds, 'terms': list(terms), 'k': ['c19', ctx.shard, k], 'text': text if len(text) < 150000 else None}
         judge(ctx, text, 'E', case, sigs)
         n += 1
         ctx.sample({'map': e['file'], 'family': kinds, 'text_head': text[:300]})
